@@ -27,6 +27,26 @@ def body(c):
             if flavour == "dynamic":
                 w = json.loads(json.dumps(w).replace('{"k": "err"}', '{"k": "err"}'))
             base.append({"id": 0, "flavour": flavour, "doc": d, "opIndex": 1, "vars": [], "world": w, "schedule": []})
+    # targeted: two nullable subtrees resolving concurrently, each with a failing child (non-null or nullable) --
+    # every completion order of "first failure recorded" / "second failure propagates" must report both errors
+    def f(d, name, alias=""): return {"d": d, "k": "field", "name": name, "alias": alias, "on": "", "dir": ""}
+    def on(d, t): return {"d": d, "k": "inline", "name": "", "alias": "", "on": t, "dir": ""}
+    twin = [([f(1, "a"), f(2, "nn"), f(1, "node"), on(2, "A"), f(3, "n")], [("a1", "nn"), ("a2", "n")]),
+            ([f(1, "a"), f(2, "selfNN"), f(3, "fnn"), f(1, "u"), on(2, "A"), f(3, "nn")], [("a1", "fnn"), ("a2", "nn")]),
+            ([f(1, "node"), on(2, "A"), f(3, "nn"), f(1, "a"), f(2, "n"), f(2, "e")], [("a2", "nn"), ("a1", "n"), ("a1", "e")])]
+    for flat, faults in twin:
+        for flavour in ("static", "dynamic"):
+            wg = gqlgen.WorldGen(ts, random.Random(c.seed * 19 + len(base)), p_null=0.0)
+            wg.dyn_lists = flavour == "dynamic"
+            w = wg.world()
+            # a -> a1, node/u -> a2; self references stay inside a1
+            w["root"]["vals"]["a"] = {"k": "ref", "id": "a1", "ty": "A"}
+            w["root"]["vals"]["node"] = {"k": "ref", "id": "a2", "ty": "A"}
+            w["root"]["vals"]["u"] = {"k": "ref", "id": "a2", "ty": "A"}
+            w["a1"]["vals"]["selfNN"] = {"k": "ref", "id": "a1", "ty": "A"}
+            for oid, fld in faults:
+                w[oid]["vals"][fld] = {"k": "err"}
+            base.append({"id": 0, "flavour": flavour, "doc": gqlgen.tree_from_flat(flat, "query"), "opIndex": 1, "vars": [], "world": w, "schedule": []})
     dry = schedcheck.dry_run(c, base, "c05")
     trees, gated = [], {}
     for case, d in zip(base, dry):
